@@ -4,8 +4,7 @@
 //! simulator.  Nothing in here changes the behaviour of the engine.
 
 use crate::{
-    DbCollection, Engine,
-    data,
+    DbCollection, Engine, data,
     scheduler::{Process, Task},
 };
 use std::sync::{Arc, RwLock};
@@ -154,5 +153,38 @@ pub(crate) fn on_state(task: &Task, old: &crate::TaskState, new: &crate::TaskSta
             &new.to_string(),
             pure,
         );
+    }
+}
+
+/// lock interception for the simulator's virtual threads:
+/// `sched_point(kind, addr)` is called before every acquisition of an engine lock
+/// (kind 0 = read, 1 = write, 2 = mutex), `blocked(addr)` when the lock is held by somebody
+/// else; it returns true when the caller should try again (the simulator ran another
+/// virtual thread meanwhile) and false when the caller should block the ordinary way
+pub struct SyncHooks {
+    pub sched_point: fn(u8, usize),
+    pub blocked: fn(usize) -> bool,
+}
+
+static SYNC_HOOKS: RwLock<Option<SyncHooks>> = RwLock::new(None);
+
+pub fn set_sync_hooks(hooks: Option<SyncHooks>) {
+    *SYNC_HOOKS.write().unwrap() = hooks;
+}
+
+#[inline]
+pub(crate) fn sched_point(kind: u8, addr: usize) {
+    let f = SYNC_HOOKS.read().unwrap().as_ref().map(|h| h.sched_point);
+    if let Some(f) = f {
+        f(kind, addr)
+    }
+}
+
+#[inline]
+pub(crate) fn lock_blocked(addr: usize) -> bool {
+    let f = SYNC_HOOKS.read().unwrap().as_ref().map(|h| h.blocked);
+    match f {
+        Some(f) => f(addr),
+        None => false,
     }
 }
